@@ -216,12 +216,19 @@ impl Inst {
     pub fn feed(&mut self, data: &[u8], ops: &[Op], who: u8, scn: &Scn, salt: usize) -> Result<Vec<u8>, String> {
         let u = self.unit();
         assert!(data.len() % u == 0, "harness: feed needs whole units");
-        let ps: Vec<&Op> = ops.iter().filter(|o| o.k == "data" && o.who == who).collect();
+        let ps: Vec<&Op> = ops.iter().filter(|o| (o.k == "data" || o.k == "clone") && o.who == who).collect();
         let mut out = Vec::with_capacity(data.len());
         let mut i = 0usize;
         while out.len() < data.len() {
             let mut op = if ps.is_empty() || i >= 4 * ps.len() + 4 { Op::new("data").n(((data.len() - out.len()) / u) as u64).via(3) } else { ps[i % ps.len()].clone() };
             i += 1;
+            if op.k == "clone" {
+                // continue on a clone of the instance (the original is dropped)
+                if let Some(c) = self.dup() {
+                    *self = c;
+                }
+                continue;
+            }
             let n = (op.n as usize * u).min(data.len() - out.len());
             op.n = (n / u) as u64;
             let o = self.step(&op, &data[out.len()..out.len() + n], scn.dirt(salt + out.len(), n))?;
